@@ -325,3 +325,17 @@ pub fn stub_ipv4_fmt(ip: &std::net::Ipv4Addr, f: &mut core::fmt::Formatter<'_>) 
     f.write_str(unsafe { core::str::from_utf8_unchecked(&buf[.. n]) })
 }
 
+/// ASCII-only replacement for `str::to_lowercase` (the replies in the harnesses that use it
+/// are ASCII; a non-ASCII byte fails the harness, it is not skipped): std's version walks the Unicode case-mapping tables for every character.
+pub fn stub_to_lowercase_ascii(s: &str) -> String {
+    let b = s.as_bytes();
+    let mut out = String::with_capacity(16);
+    let mut i = 0;
+    while i < b.len() {
+        assert!(b[i] < 0x80, "harness bound: ASCII text only");
+        out.push(b[i].to_ascii_lowercase() as char);
+        i += 1;
+    }
+    out
+}
+
